@@ -426,6 +426,13 @@ class MSRun:
         if open_recv == 0 and pend_send:
             self._viol("C13", f"every receive clone is closed but sender task(s) {pend_send} stay blocked")
 
+        # ---- observation O-own-close (audit C13 4.1; a recorded decision, NOT a violation): a task stays blocked although
+        #      every clone of its OWN side has been closed, while the peer side is still open
+        if open_recv == 0 and open_send > 0 and pend_recv:
+            self.flags.add("O-own-close")
+        if open_send == 0 and open_recv > 0 and pend_send:
+            self.flags.add("O-own-close-sender")
+
         # ---- C12: a receiver only ever waits when there is nothing to receive (state invariant, every step) ----
         live_after = [t for t in pend_recv if not self.cur[t]["creq"]]
         if wr1 > 0 and (buf1 > 0 or ws1 > 0):
@@ -488,6 +495,23 @@ class MSRun:
             if live_before and any(i and i["kind"] == "recv" and i["stage"] == "wait" and i["creq"]
                                    for i in self.cur.values()):
                 self.flags.add("send_meets_cancelled_head_and_live_receiver")
+            # audit C12 4.3: a receiver popped from waiting_receivers WITHOUT an item must be one whose cancellation
+            # has been delivered, its wake-up must be queued, and it must end with that cancellation
+            popped = max(wr0 - wr1, 0)
+            handed_n = 1 if (code == DONE and buf1 == buf0 and popped >= 1) else 0
+            n_skipped = popped - handed_n
+            if n_skipped > 0:
+                cands = [t for t, i in self.cur.items() if i and i["kind"] == "recv" and i["stage"] == "wait"
+                         and i.get("creq_pending") and not i.get("skipped_at")]
+                if n_skipped > len(cands):
+                    self._viol("C12", f"send dropped {n_skipped} receiver(s) from the waiting queue without an item but only "
+                                      f"{len(cands)} waiting receiver(s) have a delivered cancellation")
+                for t in cands:
+                    self.cur[t]["skipped_at"] = self.steps
+                    if not self.world.runnable(self.world.puppets[t]):
+                        self._viol("C12", f"receiver task {t} was popped from the waiting queue without an item and its "
+                                          f"wake-up is not queued (it would hang)")
+                self.flags.add("receiver_skipped_by_send")
             # receivers whose cancellation is pending must be skipped
             skipped = [t for t, i in self.cur.items() if i and i["kind"] == "recv" and i["stage"] == "wait" and i["creq"]]
             if skipped and wr0 > 0 and code in (DONE, BLOCKED, WOULDBLOCK):
@@ -550,6 +574,11 @@ class MSRun:
             self.flags.add("receiver_blocks")
         if recv_wake and code == CANCELLED:
             self.flags.add("blocked_receive_cancelled")
+        if recv_wake and info.get("creq_pending") and code != CANCELLED:
+            what = "popped from the waiting queue without an item" if info.get("skipped_at") else "cancelled while blocked"
+            self._viol("C12", f"receiver task {a} was {what} but its receive ended with {RESN[code]} instead of a cancellation")
+        if recv_wake and info.get("skipped_at") and code == CANCELLED:
+            self.flags.add("skipped_receiver_ends_cancelled")
 
         # ---- cancellation requests (what the harness did, for the loss budget and flags) ----
         if c in (CANCEL, SCANCEL) and info:
@@ -575,6 +604,9 @@ class MSRun:
                 self.flags.add("cancel_in_checkpoint")
             if not (runnable_before and c == SCANCEL and info["stage"] == "wait") and not info["creq"]:
                 info["creq"] = kind
+                # delivered while the wait was still pending: the waiter future is cancelled, the call MUST end
+                # with a cancellation
+                info["creq_pending"] = info["stage"] == "wait" and not runnable_before
         if c == DELIVER:
             self.flags.add("deliver_retry_run")
             if before != after:
@@ -841,6 +873,11 @@ def scenario_cases():
                      RECVNW, 2, 1, 0]))
     # blocked sender's handle closed under it: its item is still delivered, then EndOfStream
     S.append((0, 2, [SEND, 1, 0, 1, RESUME, 1, 0, 0, CLOSE, 0, 0, 0, RECVNW, 2, 1, 0, RECVNW, 2, 1, 0, RESUME, 1, 0, 0]))
+    # O-own-close (recorded decision): a receiver blocked on a handle that someone else closes stays blocked while the
+    # send side is open, every send is refused, the close of the send side releases it with EndOfStream
+    S.append((0, 2, [RECV, 1, 1, 0, RESUME, 1, 0, 0, CLOSE, 0, 1, 0, SENDNW, 2, 0, 1, CLOSE, 0, 0, 0, RESUME, 1, 0, 0]))
+    # ... and a sender blocked on a handle that someone else closes stays queued, its item is still delivered
+    S.append((0, 2, [SEND, 1, 0, 1, RESUME, 1, 0, 0, CLOSE, 0, 0, 0, RECVNW, 2, 1, 0, RESUME, 1, 0, 0, RECVNW, 2, 1, 0]))
     # operations on closed handles
     S.append((1, 2, [CLONE, 0, 0, 0, CLOSE, 0, 0, 0, SENDNW, 1, 0, 1, SEND, 1, 0, 2, RESUME, 1, 0, 0, CLONE, 0, 0, 0,
                      SENDNW, 1, 2, 3, CLOSE, 0, 1, 0, RECVNW, 2, 1, 0, SENDNW, 1, 2, 4]))
@@ -857,11 +894,13 @@ NEED_FLAGS = {
             "send_meets_scope_cancelled_receiver", "blocked_receive_gets_item", "blocked_send_cancelled",
             "interrupted_send_item_delivered", "cancel_sender_after_wakeup", "cancel_in_checkpoint",
             "deliver_retry_run", "item_lost_by_native_cancel_documented_scope",
-            "two_or_more_blocked_receivers", "send_meets_cancelled_head_and_live_receiver"],
+            "two_or_more_blocked_receivers", "send_meets_cancelled_head_and_live_receiver",
+            "receiver_skipped_by_send", "skipped_receiver_ends_cancelled"],
     "C13": ["clone", "double_close", "eos", "broken", "eos_wakes_blocked_receiver", "broken_wakes_blocked_sender",
             "last_send_close_with_blocked_receivers", "last_recv_close_with_blocked_senders",
             "receive_side_closed_with_buffered_items", "items_stay_in_buffer_after_receive_side_closed",
-            "two_or_more_blocked_receivers", "send_meets_cancelled_head_and_live_receiver"],
+            "two_or_more_blocked_receivers", "send_meets_cancelled_head_and_live_receiver", "O-own-close",
+            "O-own-close-sender"],
 }
 NONTRIVIAL = {
     "C12": {"handed_to_blocked_receiver", "receive_takes_from_blocked_sender", "cancel_blocked_receiver",
@@ -870,6 +909,85 @@ NONTRIVIAL = {
     "C13": {"eos", "broken", "last_send_close_with_blocked_receivers", "last_recv_close_with_blocked_senders",
             "double_close"},
 }
+
+
+def observe_skip_prediction_averted():
+    """Real-code scenario OUTSIDE the P model (it needs cancel-scope state: nested scopes, shields and the retry callback of
+    _deliver_cancellation), after hunt/C12/borderline_shield_toggle.py.  A receiver blocked in receive() inside a
+    shielded scope, inside an already cancelled task-group scope whose delivery retry callback is pending (a sibling is
+    slow to die).  In ONE loop cycle a third party un-shields the inner scope (delivery is deferred to the pending
+    retry), calls send_nowait (has_pending_cancellation() is true through _effectively_cancelled, so the receiver is
+    popped and the item buffered) and re-shields the scope (the retry now skips the receiver).  The prediction "this
+    receiver is about to be cancelled" has been averted: the receiver is neither cancelled nor ever served.
+    Runs on a plain asyncio loop.  Returns the observation; it is recorded in the evidence, it is not a violation
+    (the property quantifies over cancellation, not over shield toggling by a third party inside one cycle)."""
+    import anyio
+    from anyio import CancelScope, create_memory_object_stream, create_task_group, sleep_forever
+
+    out = {"ran": False}
+
+    async def main():
+        tx, rx = create_memory_object_stream(5)
+        res, st = [], {}
+
+        async def receiver():
+            with CancelScope(shield=True) as inner:
+                st["inner"] = inner
+                try:
+                    res.append(await rx.receive())
+                except BaseException as e:  # noqa: BLE001
+                    res.append(type(e).__name__)
+                    raise
+
+        async def slow_to_die():
+            try:
+                await asyncio.sleep(100)
+            except BaseException:  # noqa: BLE001
+                for _ in range(6):
+                    try:
+                        await asyncio.sleep(0)
+                    except BaseException:  # noqa: BLE001
+                        pass
+                raise
+
+        async def group():
+            async with create_task_group() as outer:
+                st["outer"] = outer
+                outer.start_soon(receiver)
+                outer.start_soon(slow_to_die)
+                await sleep_forever()
+
+        async with create_task_group() as top:
+            top.start_soon(group)
+            for _ in range(4):
+                await asyncio.sleep(0)
+            st["outer"].cancel_scope.cancel()
+            await asyncio.sleep(0)
+            waiting_before = tx.statistics().tasks_waiting_receive
+            st["inner"].shield = False      # --- one loop cycle, no awaits ---
+            tx.send_nowait("a")
+            st["inner"].shield = True       # ---------------------------------
+            for _ in range(20):
+                await asyncio.sleep(0)
+            tx.send_nowait("b")
+            for _ in range(5):
+                await asyncio.sleep(0)
+            stats = tx.statistics()
+            out.update({
+                "ran": True, "receiver_result": list(res), "tasks_waiting_receive_before": waiting_before,
+                "current_buffer_used": stats.current_buffer_used, "tasks_waiting_receive": stats.tasks_waiting_receive,
+                "skip_prediction_averted": (not res and stats.current_buffer_used == 2
+                                            and stats.tasks_waiting_receive == 0 and waiting_before == 1),
+            })
+            st["inner"].shield = False      # let everything unwind
+            tx.close()
+            rx.close()
+
+    try:
+        asyncio.run(asyncio.wait_for(main(), 20))
+    except BaseException as e:  # noqa: BLE001
+        out["error"] = repr(e)[:200]
+    return out
 
 
 def case_of(r: MSRun):
@@ -1045,6 +1163,12 @@ def check(prop: str, tier: str) -> int:
         rep.violation("; ".join(tie_broken), {"kind": "tie", "broken": tie_broken, "case": d,
                                                "monitor_hits_of_the_sibling_property": other_hits}, no_input=True)
 
+    _t0 = _time.time()
+    skip_obs = observe_skip_prediction_averted()
+    skip_obs["what"] = ("real-code scenario outside the P model (needs cancel-scope state): a receiver skipped by send_nowait on "
+                        "the prediction that it will be cancelled (shield toggled off) and re-shielded in the same cycle "
+                        "stays blocked with items in the buffer; recorded, not a violation (see props/C12.v header)")
+    stage_t["skip_prediction_scenario"] = round(_time.time() - _t0, 1)
     flags = {}
     for r in runs:
         for f in r.flags:
@@ -1094,6 +1218,13 @@ def check(prop: str, tier: str) -> int:
         "model_rejected_ops": rejected,
         "monitor_hits": len(monitor_hits),
         "stage_seconds": stage_t,
+        "observations": {
+            "O-own-close": {"cases": flags.get("O-own-close", 0), "sender_variant_cases": flags.get("O-own-close-sender", 0),
+                            "what": "a task stays blocked on a stream although every clone of its OWN side was closed by "
+                                    "someone else while the peer side is open (recorded decision, theorem "
+                                    "C13_blocked_on_own_closed_side; the property text speaks of the peer side only)"},
+            "skip_prediction_averted": skip_obs,
+        },
         "samples": [{"maxbuf": runs[i].maxcode(), "ops": readable(runs[i].ops)[:30], "outs": runs[i].outs[:70]}
                     for i in idx[:2]],
     })
